@@ -1,6 +1,6 @@
 (* C07 — the sender transmits exactly the source file. Pinned statements only. *)
 From CFDP Require Import Base.Prelude Model.Timer Model.TxTypes Model.Recv Model.Send Model.TxInst
-  Proofs.SendP Proofs.FirstPassP Proofs.HeaderP.
+  Proofs.SendP Proofs.FirstPassP Proofs.HeaderP Proofs.TileP.
 
 (* The invariant S7 (metadata size = file length; cursor inside the file; every queued NAK
    request is the 0-0 marker or a non-empty range inside the file no longer than a segment;
@@ -69,6 +69,20 @@ Example C07_first_pass_nonvacuous :
                               | _ => false end) (s_out s ++ h) = true.
 Proof. vm_compute. reflexivity. Qed.
 
+(* ... and it does so in order, each byte once: while no retransmission is queued, each run of the
+   send arm in the SendData phase emits exactly one file data PDU, starting at the cursor (where the
+   previous one ended), one segment long or up to the end of the file, and moves the cursor to its
+   end; at the end of the file the EOF is made ready *)
+Theorem C07_first_pass_in_order : forall cksum resp_len req_len now (s : sstate),
+  s_phase s = SendData -> s_naks s = [] -> s_prompt s = None ->
+  let data := slice (s_file s) (s_pos s) (cfg_seg (s_cfg s)) in
+  let s' := fst (s_send_pdu cksum resp_len req_len now s) in
+  (exists p, s_out s' = OPdu p :: s_out s /\ o_payload p = PFileData (s_pos s) data) /\
+  (if s_pos s + N.of_nat (length data) =? N.of_nat (length (s_file s))
+   then s_phase s' = SendEof /\ (exists e, s_eof s' = Some (e, true))
+   else s_phase s' = SendData /\ s_pos s' = s_pos s + N.of_nat (length data) /\ s_naks s' = []).
+Proof. exact first_pass_step. Qed.
+
 (* Headers: every PDU a send transaction ever emits is directed towards the file receiver, is
    handed to the transport of the configured destination entity, and announces as its data field
    length the length of its own payload; the configuration (ids, mode, CRC and size flags) is the
@@ -102,5 +116,6 @@ Print Assumptions C07_nak_split_wellformed.
 Print Assumptions C07_file_data_correct.
 Print Assumptions C07_eof_truthful.
 Print Assumptions C07_first_pass_covers.
+Print Assumptions C07_first_pass_in_order.
 Print Assumptions C07_headers_initial.
 Print Assumptions C07_headers_every_step.
